@@ -333,7 +333,7 @@ def run(ck: Check):
     ck.cover(evaluations=n_wf, distinct=distinct, samples=samples, dist=dist)
 
     # ---- long strings: both length-prefix forms of both encodings (S and T)
-    for k, n in enumerate((0x7F, 0x80, 0x7FFF, 0x8000, 0x8123)):
+    for k, n in enumerate((0x7F, 0x80, 0x7FFF, 0x8000, 0x8123, 0x10001)):      # 0x10001: non-zero high half of a wide UTF-16 prefix
         for utf8 in (False, True):
             if utf8 and n > 0x7FFF:
                 continue
